@@ -520,6 +520,11 @@ func (m *ConnectMessage) decodeMessage(src []byte) (int, error) {
 		return total, fmt.Errorf("connect/decodeMessage: Invalid QoS level (%d) for %s message", m.WillQos(), m.Name())
 	}
 
+	// If the User Name Flag is set to 0, the Password Flag MUST be set to 0 [MQTT-3.1.2-22]
+	if m.PasswordFlag() && !m.UsernameFlag() {
+		return total, fmt.Errorf("connect/decodeMessage: Protocol violation: Password Flag is set without User Name Flag")
+	}
+
 	if !m.WillFlag() && (m.WillRetain() || m.WillQos() != QosAtMostOnce) {
 		return total, fmt.Errorf("connect/decodeMessage: Protocol violation: If the Will Flag (%t) is set to 0 the Will QoS (%d) and Will Retain (%t) fields MUST be set to zero", m.WillFlag(), m.WillQos(), m.WillRetain())
 	}
